@@ -255,7 +255,20 @@ def setSrc (srcs : Nat → Src) (i : Nat) (s : Src) : Nat → Src :=
 def updSrc (srcs : Nat → Src) (i : Nat) (s : Src) : Nat → Src :=
   fun j => if j = i then s else srcs j
 
+/-- which of the two proposed repairs the tree under test has (read off the source by the harness):
+    `noErrAll` — fixes/C05_D24: `raiseEventNoErrors` treats a `ReventError` that came out of a handler like any other
+    handler exception (it still re-raises its own complaint about an undeclared event, which happens before any frame);
+    `onceFinally` — fixes/C05_D60: the one-shot removal at 298 sits in a `finally`, so it also happens when the handler raises. -/
+structure Variant where
+  noErrAll : Bool
+  onceFinally : Bool
+  deriving DecidableEq, Repr
+
+/-- the code as it stands: neither repair -/
+def Variant.asIs : Variant := ⟨false, false⟩
+
 structure M where
+  v : Variant                  -- never changes
   srcs : Nat → Src
   stack : List Frame           -- innermost delivery first
   todo : List SAct             -- top-level operations still to perform
@@ -263,22 +276,26 @@ structure M where
   log : List Ev
   nextFid : Nat
 
-def M.init (srcs : Nat → Src) (ops : List SAct) : M :=
-  { srcs := srcs, stack := [], todo := ops, pend := none, log := [], nextFid := 0 }
+def M.init (v : Variant) (srcs : Nat → Src) (ops : List SAct) : M :=
+  { v := v, srcs := srcs, stack := [], todo := ops, pend := none, log := [], nextFid := 0 }
 
 /-- the loop of delivery `fr` ends normally: `break` (`halt`) or exhaustion; 317 `return event` -/
 def finish (m : M) (fr : Frame) (st : List Frame) (halt : Bool) : M :=
   { m with stack := st, pend := some (.ok (.event halt), fr.guarded),
            log := m.log ++ [.endf fr.fid fr.noErr (.ok (.event halt))] }
 
-/-- the running handler of `fr` raises `k`: the exception leaves `raiseEvent`; `raiseEventNoErrors` re-raises a
-    `ReventError` and swallows everything else (243-250) -/
+/-- the running handler of `fr` raises `k`: the exception leaves `raiseEvent` (with D60 repaired, after the one-shot
+    removal in the `finally`); `raiseEventNoErrors` re-raises a `ReventError` (unless D24 is repaired) and swallows
+    everything else (243-250) -/
 def abort (m : M) (fr : Frame) (st : List Frame) (k : Exc) : M :=
-  let r : Res := if fr.noErr && k != .revent then .ok .none else .exc k
+  let r : Res := if fr.noErr && (m.v.noErrAll || k != .revent) then .ok .none else .exc k
   let lg : List Ev := match fr.cur with
     | some (e, _, _) => [.ret fr.fid e (.exc k) fr.halt]
     | none => []
-  { m with stack := st, pend := some (r, fr.guarded), log := m.log ++ lg ++ [.endf fr.fid fr.noErr r] }
+  let srcs := match fr.cur with
+    | some (e, _, _) => if m.v.onceFinally && e.once then updSrc m.srcs fr.src (rmEidAll (m.srcs fr.src) e.eid) else m.srcs
+    | none => m.srcs
+  { m with srcs := srcs, stack := st, pend := some (r, fr.guarded), log := m.log ++ lg ++ [.endf fr.fid fr.noErr r] }
 
 /-- the running handler `e` of `fr` returns `r` (not an exception): 298-316 -/
 def hret (m : M) (fr : Frame) (st : List Frame) (e : Entry) (r : Ret) : M :=
